@@ -4,10 +4,10 @@ from .. import corr, persist, verdict
 
 
 def run_persist_property(prop, module, trusted, tier, seed, replay, gen_cases, kinds, rule, assumptions,
-                         extra=None):
+                         extra=None, also=()):
     rep = Report(prop, tier, seed)
     thorough = tier == "thorough"
-    ok, info = proof_stage(rep, module, thorough=thorough)
+    ok, info = proof_stage(rep, module, thorough=thorough, also=also)
     bok, blog, bsecs = cargo_build()
     if not bok:
         rep.violation(rep.write_replay("harness_build.log", blog[-4000:]), no_input=True)
